@@ -22,6 +22,8 @@ struct Elem {
     uint32_t guard_hi;
     int key_copy;
     size_t slot;            // index in Inst::all (O(1) removal)
+    struct cstl_dlist_node node2;   // "mixed offsets" cases: list 1 threads its elements through this member
+    uint32_t guard3;
 };
 const uint32_t GUARD_LO = 0xA5C3F00Du, GUARD_HI = 0x5A3C0FF1u;
 
@@ -49,15 +51,19 @@ const int KEYS[] = {1, 2, 3, 5, 8};
 const int MAXLIVE[] = {1000000, 2, 3, 4, 5, 6, 8, 12};
 
 void *g_cmp_priv_expected;
+// any negative / zero / positive int is a valid comparison result: the plain difference, +-1, and values that do not
+// fit a short or a char (sort op byte, bits 1-2)
+int g_cmp_mag;
+static int cmp_scale(int d) { return g_cmp_mag == 1 ? (d < 0 ? -2000000000 : d > 0 ? 2000000000 : 0) : g_cmp_mag == 2 ? (d > 0) - (d < 0) : g_cmp_mag == 3 ? d * 300 : d; }
 int cmp_asc(const void *a, const void *b, void *p)
 {
     CHECK_NOTHROW(p == g_cmp_priv_expected, "C12.sort.priv", "compare priv pointer changed");
-    return ((const Elem *)a)->key - ((const Elem *)b)->key;
+    return cmp_scale(((const Elem *)a)->key - ((const Elem *)b)->key);
 }
 int cmp_desc(const void *a, const void *b, void *p)
 {
     CHECK_NOTHROW(p == g_cmp_priv_expected, "C12.sort.priv", "compare priv pointer changed");
-    return ((const Elem *)b)->key - ((const Elem *)a)->key;
+    return cmp_scale(((const Elem *)b)->key - ((const Elem *)a)->key);
 }
 int cmp_find(const void *a, const void *b, void *p)
 {
@@ -72,8 +78,9 @@ struct Inst {
     std::vector<Elem *> model[3];
     std::vector<Elem *> all;      // every element allocated & still owned by us
     int nlists, next_id;
+    size_t off[3];                // which node member each list object links (exchanged by swap)
 
-    void init(const char *t, int n, bool prim)
+    void init(const char *t, int n, bool prim, bool mixed = false)
     {
         tag = t;
         primary = prim;
@@ -81,7 +88,8 @@ struct Inst {
         next_id = 0;
         for (int i = 0; i < 3; i++) {
             model[i].clear();
-            cstl_dlist_init(&dl[i], offsetof(Elem, node));
+            off[i] = (mixed && i == 1) ? offsetof(Elem, node2) : offsetof(Elem, node);
+            cstl_dlist_init(&dl[i], off[i]);
         }
     }
     Elem *mk(int key)
@@ -95,6 +103,8 @@ struct Inst {
         e->key_copy = ~key;
         e->node.n = (struct cstl_dlist_node *)0x5a5a5a5a5a5a5a5aull;
         e->node.p = (struct cstl_dlist_node *)0x5a5a5a5a5a5a5a5aull;
+        e->node2.n = e->node2.p = (struct cstl_dlist_node *)0x5a5a5a5a5a5a5a5aull;
+        e->guard3 = GUARD_HI;
         e->slot = all.size();
         all.push_back(e);
         return e;
@@ -241,7 +251,8 @@ void audit(Inst &in, int li, Obs *obs, const char *pfx)
     // outside the embedded node was overwritten
     snprintf(cl, sizeof cl, "%s.payload", pfx);
     for (size_t i = 0; i < m.size(); i++)
-        CHECK(m[i]->guard_lo == GUARD_LO && m[i]->guard_hi == GUARD_HI && m[i]->key_copy == ~m[i]->key, cl,
+        CHECK(m[i]->guard_lo == GUARD_LO && m[i]->guard_hi == GUARD_HI && m[i]->guard3 == GUARD_HI && m[i]->key_copy == ~m[i]->key &&
+              (in.off[li] == offsetof(Elem, node) ? m[i]->node2.n : m[i]->node.n) == (struct cstl_dlist_node *)0x5a5a5a5a5a5a5a5aull, cl,
               "%s L%d element at position %zu was overwritten outside its list node", in.tag, li, i);
 }
 
@@ -267,11 +278,11 @@ std::string peek_state(Inst &in)
         size_t bound = in.live() + 2, n = 0;
         s += "L";
         for (struct cstl_dlist_node *c = l->h.n; c && c != &l->h && n < bound; c = c->n, n++)
-            s += (char)('a' + ((Elem *)((char *)c - offsetof(Elem, node)))->key);
+            s += (char)('a' + ((Elem *)((char *)c - in.off[li]))->key);
         s += "|";
         n = 0;
         for (struct cstl_dlist_node *c = l->h.p; c && c != &l->h && n < bound; c = c->p, n++)
-            s += (char)('a' + ((Elem *)((char *)c - offsetof(Elem, node)))->key);
+            s += (char)('a' + ((Elem *)((char *)c - in.off[li]))->key);
         char b[64];
         snprintf(b, sizeof b, "|s%zu|o%zu;", (size_t)l->size, (size_t)l->off);
         s += b;
@@ -376,6 +387,7 @@ void apply(Inst &in, CaseCtx &cx, int op, uint8_t a, uint8_t b, int K, size_t ma
         break;
     case SORT: {
         g_cmp_priv_expected = &in;
+        g_cmp_mag = (b >> 1) & 3;
         TRACE("%s L%d.sort %s (n=%zu)", in.tag, li, (b & 1) ? "desc" : "asc", m.size());
         LIB(cstl_dlist_sort(l, (b & 1) ? cmp_desc : cmp_asc, &in));
         // sort need not be stable: take the order from the list itself, but
@@ -411,6 +423,7 @@ void apply(Inst &in, CaseCtx &cx, int op, uint8_t a, uint8_t b, int K, size_t ma
             break;
         }
         si = other_list(li, b, nl);
+        if (in.off[li] != in.off[si]) { CNTA("noop.concat_mixed_offsets"); TRACE("%s concat noop (the two lists link different members)", in.tag); si = -1; break; }
         std::vector<Elem *> &ms = in.model[si];
         TRACE("%s L%d.concat L%d (%zu += %zu)", in.tag, li, si, m.size(), ms.size());
         LIB(cstl_dlist_concat(l, &in.dl[si]));
@@ -441,6 +454,8 @@ void apply(Inst &in, CaseCtx &cx, int op, uint8_t a, uint8_t b, int K, size_t ma
             if (m.size() >= 4 || ms.size() >= 4) cx.nt_big = true;
         }
         m.swap(ms);
+        std::swap(in.off[li], in.off[si]);      // the list objects exchange everything, the member they link included
+        if (in.primary && in.off[li] != in.off[si]) CNT("class.swap.mixed_offsets");
         break;
     }
     case FIND: {
@@ -566,10 +581,11 @@ void vf_run(const uint8_t *data, size_t len)
     int prof = cur.u8() % NPROFILES;
     uint8_t flags = cur.u8();
     bool audit_all = flags & 1;
+    bool mixed = (flags & 2) && nl >= 2;
     CaseCtx cx{};
     cx.c15 = g_prop == "C15";
-    A.init("A", nl, true);
-    B.init("B", nl, false);
+    A.init("A", nl, true, mixed);
+    B.init("B", nl, false, mixed);
     bool twin = false;          // C15: after the first clear every op also runs on a fresh twin
     std::vector<uint8_t> tab;
     for (int o = 0; o < NOPS; o++) for (int k = 0; k < PROFILES[prof][o]; k++) tab.push_back((uint8_t)o);
@@ -616,6 +632,7 @@ void vf_run(const uint8_t *data, size_t len)
             // cleared list is empty; rebuild the twin's other lists from the model.
             twin = true;
             for (int i = 0; i < nl; i++) {
+                if (B.off[i] != A.off[i]) { B.off[i] = A.off[i]; cstl_dlist_init(&B.dl[i], B.off[i]); }   // (swaps moved the offsets around)
                 for (Elem *e : A.model[i]) {
                     Elem *t = B.mk(e->key);
                     t->id = e->id;
@@ -671,7 +688,7 @@ void vf_gen(Rng &r, std::vector<uint8_t> &out)
     out.push_back(r.chance(3, 4) ? 0 : r.byte()); // max live: mostly unbounded
     if (c15) out.push_back(r.chance(1, 2) ? 5 : r.byte());
     else out.push_back(r.byte());                // profile
-    out.push_back(r.chance(1, 4) ? 1 : 0);       // flags: audit every list after every op
+    out.push_back((uint8_t)((r.chance(1, 4) ? 1 : 0) | (r.chance(1, 4) ? 2 : 0)));       // flags: audit every list after every op; mixed node offsets
     size_t n = r.chance(2, 3) ? 1 + r.below(12) : 1 + r.below(200);
     if (!c15 && r.chance(1, 30000)) { n = 70000 + r.below(70000); out[2] = 0; out[3] = PROFILE_SCALE; out[4] = 0; }   // scale run
     for (size_t i = 0; i < n; i++) { out.push_back(r.byte() % 251); out.push_back(r.byte()); out.push_back(r.byte()); }
@@ -712,7 +729,7 @@ bool vf_scope(const std::string &name, Scope &s)
                 if (seq) ab = {{0, 0}, {0, 1}};
                 else for (int pos = 0; pos < npos; pos++) ab.push_back({0, pos});
                 break;
-            case SORT: ab = {{0, 0}, {0, 1}}; if (seq) ab.pop_back(); break;
+            case SORT: ab = {{0, 0}, {0, 2}, {0, 1}}; if (seq) { ab.pop_back(); ab.pop_back(); } break;    // asc, asc with +-2e9 results, desc
             case CONCAT:
                 for (int k = 0; k < nl - 1; k++) ab.push_back({0, k});
                 break;
